@@ -27,7 +27,7 @@ def opErm (j : Json) : R Json := do
   let cols : List (List Float) ← getL2 (← field j "cols")
   pure (Json.mkObj [("erm", Json.arr ((cols.map (entropicRisk a)).map (exceptJ putS)).toArray),
                     ("eloss", putL1 (cols.map (entropicLoss a))),
-                    ("eloss_cash", putL1 (cols.map (entropicLossCash a)))])
+                    ("eloss_cash", Json.arr ((cols.map (entropicLossCashStable a)).map (exceptJ putS)).toArray)])
 
 /-- {"op":"iso","a":bits,"a_is_one":b,"cols":[[bits]]} Float -/
 def opIso (j : Json) : R Json := do
